@@ -22,6 +22,10 @@ KillOk(L, W, wallms, jsig, jexit) ==
 (* the same with the journal locked by another process for some time beyond the end of the job: the executor waits for the lock,  *)
 (* whatever timers of its own come due meanwhile, and the journal then records how the job ended (one entry)                      *)
 LockedKillOk(L, W, rc, jentries, jsig, jexit) == rc = 0 /\ jentries = 1 /\ (IF W < L THEN jsig = 0 /\ jexit = 0 ELSE jsig = 24)
+(* the executor is held up for some seconds (held: one second per output file that is a FIFO nobody reads - its open(2) comes back   *)
+(* only when the alarm interrupts it) before it gets to start the job: the job is started late, and is gone at the latest the span *)
+(* of the limit after its start; the journal records a signal                                                                       *)
+HeldKillOk(L, held, wallms, jsig) == jsig # 0 /\ wallms >= L * 1000 /\ wallms <= ((L + held) * 1000) + 1500
 StubbornKillOk(L, W, wallms, jsig) == jsig # 0 /\ wallms >= L * 1000 /\ wallms <= (L * 1000) + 2500
 (* a task of a request whose limit is a DUE time: the expectation comes as a kind and, for a kill, a window (ms after the task's own start) *)
 ObservedDueOk(t, o) ==
